@@ -746,7 +746,7 @@ func writeReplay(prop, tier string, c Candidate) string {
 
 // nativeReplay re-runs the harness natively with the recorded values.
 // It reports whether the failure reproduced, and the output.
-func nativeReplay(repo, prop string, hfs []harnessFile, pkgDir, harness, replayPath string) (bool, string) {
+func nativeReplay(repo, prop string, hfs []harnessFile, pkgDir, harness, replayPath, kind, label string) (bool, string) {
 	tmp, _ := os.MkdirTemp("", "gosym-replay-")
 	defer os.RemoveAll(tmp)
 	_, paths, err := overlayFor(repo, prop, hfs)
@@ -786,6 +786,13 @@ func TestVerifReplay(t *testing.T) {
 	out := string(outb)
 	if err == nil {
 		return false, out
+	}
+	if kind == "assert" {
+		// the same assertion must fail natively
+		if strings.Contains(out, "VERIF-ASSERT-FAILED "+label+"\n") {
+			return true, out
+		}
+		return false, "native run failed differently (expected assertion " + label + ")\n" + out
 	}
 	if strings.Contains(out, "VERIF-ASSERT-FAILED") || strings.Contains(out, "panic:") || strings.Contains(out, "fatal error:") || strings.Contains(out, "VERIF-EXIT") {
 		return true, out
@@ -970,7 +977,7 @@ func report(repo, prop, tier string, results []*WorkerResult, hfs []harnessFile,
 					spurious = append(spurious, map[string]interface{}{"harness": c.Harness, "label": c.Label, "replay": rp, "note": "not replayed (-noreplay)"})
 					continue
 				}
-				ok, out := nativeReplay(repo, prop, hfs, h.pkg, c.Harness, rp)
+				ok, out := nativeReplay(repo, prop, hfs, h.pkg, c.Harness, rp, c.Kind, c.Label)
 				if ok {
 					confirmed = true
 					confirmedPath = rp
